@@ -405,6 +405,10 @@ func c15PickBufs(r *rand.Rand, n int) ([]int, int, []byte) {
 		}
 		bufs = append(bufs, b)
 	}
+	if n > 4096 && r.Intn(2) == 0 {
+		// a first read larger than transform.Reader's 4096-byte source buffer
+		bufs = append([]int{8192}, bufs...)
+	}
 	tail := verifh.Pick(r, c15Tails)
 	if n > 1300 && tail < 7 {
 		tail = 64
@@ -618,7 +622,7 @@ func TestVerif_C15_read(t *testing.T) {
 			"(random bytes under a header charset, mutated meta tags, tag soup). Model: Lean decoders for windows-1252/UTF-16, x/text oracle strings otherwise; the harness states what an HTML prescan "+
 			"must find from its own knowledge of the generated declarations. Oracle: output in {original, x/text transcoding of the whole original}. non-trivial = selected, non-empty, a charset applies")
 	r := s.Rand()
-	n := verifh.N(2400, 80000)
+	n := verifh.N(2400, 30000)
 	cnt := map[string]int{}
 	count := func(k string) { s.Count(k); cnt[k]++ }
 	var all []c15Res
